@@ -9,8 +9,17 @@ bursts of every length 2..16 at every bit offset; the decoder must not return, m
 documented class (the property allows the checksum error or another documented decode error, so the
 class itself is not compared), the standalone CRC check must say False, and all of it must agree
 with the model run on the same corrupted octets.
+
+Random bursts make a given window read as one particular value once in 65 535 draws. So, for every kind, two further
+families are chosen by VALUE: (1) bursts after which the received trailer / an aligned word / an octet reads as a
+distinguished value (0000, ffff, 0001, 8000 ...), or after which the checksum COMPUTED over the corrupted octets is
+0000 / ffff (`directed_faults`); (2) valid packets SOLVED (two free octets; the CRC is affine over GF(2)) to carry a
+distinguished valid trailer (0000, ffff, 0001, 8000, 0100), then corrupted by every single-bit flip, a family of
+bursts and family (1) (`solved_packet`). A decoder that tests a received or computed checksum by truthiness, or
+compares it with a "not set" marker, accepts exactly these.
 """
 import random
+import re
 import struct
 from typing import Any, Callable, Dict, Iterator, List, Optional, Tuple
 
@@ -34,7 +43,7 @@ from spacepackets.cfdp.pdu.file_data import SegmentMetadata, RecordContinuationS
 from spacepackets.cfdp.pdu.prompt import ResponseRequired
 from spacepackets.util import ByteFieldU8, ByteFieldU16, ByteFieldU32, ByteFieldU64
 
-from props.c02 import _tc, rand_args as tc_args
+from props.c02 import _tc, rand_args as tc_args, crc_ccitt, fit_bits
 from props.c03 import _tm, _s17, rand_args as tm_args, TS_LENS
 from props.c15 import s1_args, _params as s1_params, Subservice, WIDTHS
 from props.c05 import mutate_cfdp, MUT_ALL
@@ -315,6 +324,91 @@ def _factory(d: bytes):
     if r is None:
         raise ValueError("PduFactory.from_raw returned None")
     return r
+
+
+# --------------------------------------------------------------------------------------------
+# faults chosen by value (see the module text)
+# --------------------------------------------------------------------------------------------
+SPECIAL_TRAILERS = [0x0000, 0xFFFF, 0x0001, 0x8000, 0x0100]
+
+
+def _cfdp_header_len(raw: bytes) -> int:
+    return 4 + 2 * (((raw[3] >> 4) & 7) + 1) + ((raw[3] & 7) + 1)
+
+
+def free16(kind: "Kind", raw: bytes, ex: Dict[str, Any]) -> List[int]:
+    """octet positions p such that ANY value of raw[p:p+2] (trailer refreshed) is again a valid packet of the same kind,
+    configuration and lengths: PUS TC source ID (or the last two octets of the application data), PUS TM destination ID
+    (for plain PusTm also the message counter and the last two octets of the source data), CFDP: the last two octets of
+    the entity-ID / sequence-number area"""
+    n = len(raw)
+    if kind.name == "tc":
+        return [9] + ([n - 4] if n - 13 >= 2 else [])
+    if kind.pus:
+        pos = [11]
+        if kind.name == "tm":
+            pos.append(9)
+            if n - 15 - ex["ts_len"] >= 2:
+                pos.append(n - 4)
+        return pos
+    return [_cfdp_header_len(raw) - 2]
+
+
+def refit(raw: bytes, pos: int, target: int) -> bytes:
+    """`raw` (complete, trailer included) with the octets pos, pos+1 solved - not searched: exactly one value does it - so
+    that the CRC-16 of everything before the trailer is `target`, and with `target` as its trailer"""
+    body = bytearray(raw[:-2])
+
+    def f(v):
+        body[pos], body[pos + 1] = v >> 8, v & 0xFF
+        return crc_ccitt(body)
+    v = fit_bits(f, 16, target)
+    if v is None:  # (cannot happen: 16 adjacent input bits map onto the 16 CRC bits one-to-one)
+        raise ValueError("no solution")
+    f(v)
+    return bytes(body) + target.to_bytes(2, "big")
+
+
+def solved_packet(kind: "Kind", rng: random.Random, i: int, target: int, shortest_of: int = 1) -> Tuple[bytes, Dict[str, Any]]:
+    """a valid packet of `kind` (variant i, made by the real encoder, then two free octets solved) whose valid trailer is
+    `target`"""
+    raw, ex = min((kind.make(rng, i + j) for j in range(shortest_of)), key=lambda r: len(r[0]))
+    return refit(raw, rng.choice(free16(kind, raw, ex)), target), ex
+
+
+def computed_crc_bursts(kind: "Kind", raw: bytes, rng: random.Random) -> List[Tuple[int, str, str]]:
+    """bursts in the octets BEFORE the trailer after which the checksum computed over them is 0000 / ffff (the received
+    trailer is left as it is): the last two octets before the trailer and one further aligned word"""
+    n = len(raw)
+    lo = kind.ex[1] // 8
+    places = {n - 4, rng.randint(lo, max(lo, n - 4))}
+    out = []
+    for p in sorted(places):
+        if p < 0 or p + 2 > n - 2:
+            continue
+        for target in (0x0000, 0xFFFF):
+            body = bytearray(raw[:-2])
+
+            def f(v):
+                body[p], body[p + 1] = v >> 8, v & 0xFF
+                return crc_ccitt(body)
+            v = fit_bits(f, 16, target)
+            b = None if v is None else core.directed_burst(raw, p, 2, v)
+            if b is not None:
+                out.append((b[0], b[1], f"computed={target:04x}"))
+    return out
+
+
+def directed_faults(kind: "Kind", raw: bytes, rng: random.Random, n_words: Optional[int],
+                    octets: bool = True) -> List[Tuple[int, str, str]]:
+    """the value-directed bursts of one packet that lie in the property's domain: every trailer-directed one, those which
+    set the computed checksum, and aligned words (`octets`: and single octets) set to 0000 / ffff at `n_words` octet
+    indices (None: all)"""
+    n = len(raw)
+    words = None if n_words is None or n_words >= n - 1 else sorted(rng.sample(range(n - 1), n_words))
+    fs = (core.value_directed_bursts(raw, windows=words, octet_values=(0x00, 0xFF) if octets else ())
+          + computed_crc_bursts(kind, raw, rng))
+    return [(k, pat, what) for k, pat, what in fs if not meets(k, len(pat), *kind.ex)]
 
 
 # --------------------------------------------------------------------------------------------
@@ -712,7 +806,10 @@ class C04(Prop):
     def exhaustive_note(self):
         return ("per packet: EVERY single-bit flip outside the excluded octets, and at EVERY bit offset bursts from the family "
                 "(all-ones of length 2..16, end-bits-only of length 3..16, random patterns with both end bits set); the full family "
-                "(38 patterns x every offset) on at least one packet of every kind; faults run against the real decoders in this "
+                "(38 patterns x every offset) on at least one packet of every kind; per packet the value-directed bursts (received "
+                "trailer := 0000 / ffff / 0001 / 8000 / 0100 / 0080, its octets := 00 / ff, computed checksum := 0000 / ffff, "
+                "aligned words := 0000 / ffff); for every kind packets solved to carry the valid trailers 0000 / ffff / 0001 / "
+                "8000 / 0100 with every single-bit flip; faults run against the real decoders in this "
                 f"process so far: {FAULTS_RUN['n']}")
 
     def impl_ops(self):
@@ -738,6 +835,11 @@ class C04(Prop):
     def _single(self, kind: Kind, raw: bytes, ex: Dict[str, Any], k: int, pat: str, tag: str) -> Case:
         return Case({"op": f"c04_{kind.model(raw)}_corrupt", **kind.extra(raw, ex), "raw": hx(raw), "bit_offset": k, "pattern": pat},
                     "invalid", errclass=False, tag=tag)
+
+    def _directed(self, kind: Kind, raw: bytes, ex: Dict[str, Any], rng: random.Random, n_words: Optional[int],
+                  prefix: str = "", octets: bool = True) -> Iterator[Case]:
+        for k, pat, what in directed_faults(kind, raw, rng, n_words, octets):
+            yield self._single(kind, raw, ex, k, pat, f"{kind.name}:{prefix}directed-{re.sub(r'@[0-9]+', '', what)}")
 
     def neighbours(self, case: Case, rng: random.Random) -> Iterator[Case]:
         op = case.op
@@ -835,6 +937,11 @@ class C04(Prop):
                 for k in (0, kind.ex[0] - 1, kind.ex[1], nbits - 17, nbits - 16, nbits - 1):
                     if 0 <= k < nbits and not meets(k, 1, *kind.ex):
                         yield self._single(kind, raw, ex, k, "1", f"{kind.name}:edge")
+                # bursts chosen by the value the corrupted window reads as (trailer := 0000 / ffff / 0001 ..., computed
+                # checksum := 0000 / ffff, aligned words and octets := 0000 / ffff: every word of the full-family packet,
+                # a few places on the others)
+                # (their few random choices come from a generator of their own, seeded by the packet)
+                yield from self._directed(kind, raw, ex, random.Random(raw), None if (full or thorough) else 2, octets=thorough or not full)
         # ---- state leaking between decoded objects: valid packets of one kind in differing configurations (CFDP: ID /
         #      sequence-number widths, flags and values all change with the variant index) decoded back to back; the
         #      check op looks again at the packets it decoded before ----
@@ -845,6 +952,31 @@ class C04(Prop):
                 yield Case({"op": f"c04_{kind.model(raw)}_check", **kind.extra(raw, ex), "raw": hx(raw),
                             **({"mut": rng.randint(1, MUT_ALL if not kind.pus else 31), "poison": 1} if i % 2 else {})}, "valid",
                            tag=f"{kind.name}:back-to-back")
+        # ---- packets whose VALID trailer is a distinguished value (solved, not searched): 0000 for every kind and, in
+        #      turn, ffff / 0001 / 8000 / 0100 (thorough: all of them, twice). Every single-bit flip and a family of bursts
+        #      at every offset (one sweep line), the value-directed bursts as individually compared lines ----
+        for n_kind, kind in enumerate(KINDS.values()):
+            off = rng.randint(0, 1000)
+            if thorough:
+                targets = SPECIAL_TRAILERS * 2
+            else:
+                targets = [0x0000, SPECIAL_TRAILERS[1 + (n_kind + off) % 4]]
+            for i, target in enumerate(targets):
+                raw, ex = solved_packet(kind, rng, off + i, target, 1 if thorough else 3)
+                m = kind.model(raw)
+                yield Case({"op": f"c04_{m}_check", **kind.extra(raw, ex), "raw": hx(raw), "poison": 1}, "valid",
+                           tag=f"{kind.name}:solved-valid")
+                try:
+                    kind.decode(raw, ex)
+                    base_ok = kind.crc_check(raw)
+                except Exception:  # noqa  (reported through the check case above)
+                    base_ok = False
+                if not base_ok:
+                    continue
+                pats = (["1"] + ONES + ENDS if thorough else ["1", rng.choice(ONES + ENDS)]) + [rand_pattern(rng, 16)]
+                yield Case({"op": f"c04_{m}_sweep", **kind.extra(raw, ex), "raw": hx(raw), "patterns": pats,
+                            "crc_every": 4 if thorough else 8}, "valid", tag=f"{kind.name}:solved-sweep", keys=SWEEP_KEYS)
+                yield from self._directed(kind, raw, ex, rng, None if thorough else 2, "solved-")
 
 
 PROP = C04()
